@@ -211,6 +211,30 @@ example : huber (1/2 : ℝ) 3 = some (2 * (1/2) * Real.sqrt 3 - (1/2)^2) := by
 example : onTensor (⟨Kind.huber, 1, 0, 0⟩ : Spec ℝ) [1, -1] = none :=
   kernel_rejects_negative _ (by decide) _ ⟨-1, by simp, by norm_num⟩
 
+/-! ### hardening pass: element-wise = batched -/
+
+/-- **Element-wise = batched** (kernels): on a tensor that passes the assertion, output element `i` is the
+kernel value of input element `i` alone — no other element of the batch influences it. -/
+theorem onTensor_getElem (s : Spec ℝ) (xs ys : List ℝ) (h : onTensor s xs = some ys) (i : Nat) :
+    ys[i]? = (xs[i]?).map s.val := by
+  unfold onTensor at h
+  split at h
+  · cases h
+  · cases h; simp
+
+/-- **The assertion is the only batch-level decision**: a concatenated tensor is accepted iff both parts are,
+and then the result is the concatenation of the results (so splitting / merging batches changes nothing). -/
+theorem onTensor_append (s : Spec ℝ) (xs ys : List ℝ) :
+    onTensor s (xs ++ ys) = (match onTensor s xs, onTensor s ys with
+      | some a, some b => some (a ++ b)
+      | _, _ => none) := by
+  unfold onTensor
+  by_cases ha : s.asserts = true
+  · by_cases hx : xs.all ok = true <;> by_cases hy : ys.all ok = true <;>
+      simp [ha, hx, hy, List.all_append, List.map_append]
+  · simp [ha, List.map_append]
+
+
 end PP.Kernel
 
 namespace PP.Corrector
@@ -491,5 +515,36 @@ example : (List.range 3).map (fun i => (lossKernel (robustKernels (Arg.many [som
        (some (KSel.ker 2), some (CSel.auto (KSel.ker 2)))] := by decide
 
 end plumbing
+
+/-! ## hardening pass: item-wise = batched, batch splitting, statelessness of a call history -/
+
+theorem sumN_add (n m : Nat) (f : Nat → ℝ) : sumN (n + m) f = sumN n f + sumN m (fun i => f (n + i)) := by
+  simp only [sumN_eq_sum]
+  rw [sum_range_add]
+
+/-- **Item-wise = batched** (correctors): corrected item `i` depends on `(R i, J i)` only — two batches that agree on
+item `i` give the same corrected item, whatever the other items (zero rows, masked rows, …) are. -/
+theorem corrector_itemwise (ρ1 ρ2 : ℝ → ℝ) (d : Nat) (R R' : Nat → Nat → ℝ) (J J' : Nat → Nat → Nat → ℝ) (i : Nat)
+    (hR : R i = R' i) (hJ : J i = J' i) :
+    (fun k => triggsOf ρ1 ρ2 d (R k) (J k)) i = (fun k => triggsOf ρ1 ρ2 d (R' k) (J' k)) i ∧
+    (fun k => fastOf ρ1 d (R k) (J k)) i = (fun k => fastOf ρ1 d (R' k) (J' k)) i := by
+  simp only [hR, hJ, and_self]
+
+/-- **Splitting a batch**: `J'ᵀR'`, `J'ᵀJ'` and the loss of a batch of `N + M` items are the sums over the first `N` and
+the remaining `M` items — calling the corrector on parts of a batch and stacking is the same as one call. -/
+theorem batch_split (N M d : Nat) (out : Nat → Out ℝ) (ρ : ℝ → ℝ) (R : Nat → Nat → ℝ) (l m : Nat) :
+    JtR (N + M) d out l = JtR N d out l + JtR M d (fun i => out (N + i)) l ∧
+    JtJ (N + M) d out l m = JtJ N d out l m + JtJ M d (fun i => out (N + i)) l m ∧
+    lossOne ρ (N + M) d R = lossOne ρ N d R + lossOne ρ M d (fun i => R (N + i)) := by
+  unfold JtR JtJ lossOne
+  exact ⟨sumN_add N M _, sumN_add N M _, sumN_add N M _⟩
+
+/-- **Statelessness of a call history**: the model of a corrector object is a function of the call's own arguments,
+so the results of a sequence of calls are the calls' individual results, in any order and with any repetition — a later
+call cannot depend on an earlier one (what the `history` stream checks on the real objects). -/
+theorem history_stateless {α β : Type} (f : α → β) (calls : List α) (k : Nat) (c : α) (h : calls[k]? = some c) :
+    (calls.map f)[k]? = some (f c) := by
+  simp [h]
+
 
 end PP.Corrector
